@@ -1075,17 +1075,19 @@ class Environments(collections.abc.Sequence, Sequence[Environment]):
                 path_envs   = Environments.from_save(path)
                 path_params = [e.params for e in path_envs]
                 self_params = [e.params for e in self_envs]
+                rest_envs   = list(self_envs)
 
                 try:
                     while path_params:
                         param_index_in_self = self_params.index(path_params.pop())
                         self_params.pop(param_index_in_self)
-                        self_envs.pop(param_index_in_self)
+                        rest_envs.pop(param_index_in_self)
                 except ValueError:
                     #there is a param in the file that isn't in self
                     is_equal = False
                 else:
                     is_equal = True
+                    self_envs = rest_envs
 
                 if is_equal and not self_envs:
                     return path_envs
